@@ -15,6 +15,11 @@
 //	    equals the merge under the global policy alone; (R2) a named subtree
 //	    equals the library's merge of the two subtrees with the named policy
 //	    as global policy, when its ancestors were merged rather than replaced.
+//
+// Where a `**.name` option and an exact option with another policy name (or
+// run through) the same node the statement does not say which one takes
+// precedence: the values inside that subtree are not asserted, everything
+// around it is. Cases of the class of finding D46 are skipped while it is open.
 package c16
 
 import (
@@ -559,6 +564,14 @@ func runCase(c Case, r *runlog.R) error {
 				kind = "in B only: " + kindOf(pi.b)
 			}
 			r.ClassIf(isIndex(last), "path ends in a list index")
+			echo := false
+			for _, k := range order {
+				if p := strings.Split(k, sep); len(p) > len(o.segs) && p[len(p)-1] == last && isSubsequence(o.segs, p) {
+					echo = true
+					break
+				}
+			}
+			r.ClassIf(echo, "option path is a subsequence (same last component) of a longer real path")
 			for _, k := range order {
 				p := strings.Split(k, sep)
 				if p[len(p)-1] == last && k != key && len(p) != len(o.segs) {
@@ -587,6 +600,16 @@ func runCase(c Case, r *runlog.R) error {
 	r.ClassIf(c.A.K == "list", "top-level list")
 	r.ClassIf(c.Src == 1, "source is *Config")
 	return nil
+}
+
+func isSubsequence(q, p []string) bool {
+	i := 0
+	for _, s := range p {
+		if i < len(q) && q[i] == s {
+			i++
+		}
+	}
+	return i == len(q)
 }
 
 func kindOf(n *model.Node) string {
